@@ -248,6 +248,27 @@ func c05Run(t *testing.T, c c05Case) (kind, what string) {
 					bad("ack-during-full", fmt.Sprintf("REPLCONF ACK %d while the RDB phase is not finished", a))
 				}
 			}
+			// the full phase ends: from now on the acknowledged offset is the announced offset plus
+			// every byte that followed the RDB (a byte of the command stream that was copied as
+			// part of the RDB would be missing here and re-sent after the next reconnect)
+			if kind == "" {
+				close(ds.WaitFull)
+				time.Sleep(1100 * time.Millisecond)
+				synctest.Wait()
+				base := int64(500)
+				after := int64(len(payload))
+				if full {
+					base, after = 4711, int64(len(payload)-c.N)
+				}
+				acks := m.Acks()
+				if len(acks) == 0 || acks[len(acks)-1] != base+after {
+					last := int64(-1)
+					if len(acks) > 0 {
+						last = acks[len(acks)-1]
+					}
+					bad("ack-after-handoff", fmt.Sprintf("announced offset %d and %d bytes of commands received, but the acknowledged offset is %d", base, after, last))
+				}
+			}
 			// tear down
 			for i := 0; i < m.NumConns(); i++ {
 				m.Conn(i).(*memconn.Conn).Cut()
